@@ -722,19 +722,91 @@ pub fn c19(ctx: &Ctx) -> Report {
         }
     }
     let (st, n) = run_cases(ctx, cases);
+    let n_redirect = redirect_pause_cells(ctx);
     let mut rep = Report::new("model_checking");
     fill_report(ctx, &mut rep, &st, n);
+    rep.set("redirect_pause_cells", n_redirect);
     rep.set("exhaustive", st.capped_cases == 0);
     rep.set(
         "rule",
-        format!("every small-regime wire (payload 0..={max_len}, all chunkings, 3 framings) and one 70000-byte chunk x a pause at every byte offset (structural offsets for the large wire) x segmentations of the prefix (none, uniform 1/2/3, every 1- and 2-cut set) x every caller read-size sequence over {{1,2,3,7,8192,200000}} with state merging; the transport answers a read at the pause with a marker error, ending the execution at the moment a real client would block for ever"),
+        format!("(send() across redirects: 5 followed statuses x {{Content-Length 64, chunked, close-delimited}} x how much of the announced body arrived before the redirecting server pauses x transport read size {{whole, 1, 7}} x 1 or 2 such hops: the redirecting connection is never asked beyond the pause and the final response is returned) + (write_to into a counting writer as one more caller operation: when the transport is asked beyond the pause the writer has received everything deliverable) + every small-regime wire (payload 0..={max_len}, all chunkings, 3 framings) and one 70000-byte chunk x a pause at every byte offset (structural offsets for the large wire) x segmentations of the prefix (none, uniform 1/2/3, every 1- and 2-cut set) x every caller read-size sequence over {{1,2,3,7,8192,200000}} with state merging; the transport answers a read at the pause with a marker error, ending the execution at the moment a real client would block for ever"),
     );
     rep.assume("zero-length reads are outside the alphabet (the property says 1 byte upward)");
     rep.assume("deliverable = every body byte of the prefix for length/close framing; for chunked framing the data of every chunk whose terminating line break is inside the prefix");
     rep
 }
 
+//
+// C19, the send() half across a redirect: the head of a 3xx is all send() needs from that
+// connection. The redirecting server announces a body, sends only part of it (or none) and pauses;
+// send() must go on to the new location without asking that connection for more.
+//
+pub fn redirect_pause_cells(ctx: &Ctx) -> u64 {
+    let mut n = 0u64;
+    for status in [301u16, 302, 303, 307, 308] {
+        for (fname, framing_fields, bodies) in [
+            ("length", "Content-Length: 64\r\n", vec![&b""[..], &b"moved"[..]]),
+            ("chunked", "Transfer-Encoding: chunked\r\n", vec![&b""[..], &b"5\r\nmov"[..], &b"5\r\nmoved\r\n"[..]]),
+            ("close", "", vec![&b""[..], &b"moved"[..]]),
+        ] {
+            for body in bodies {
+                for uniform in [None, Some(1usize), Some(7)] {
+                    for hops in [1usize, 2] {
+                        n += 1;
+                        let body = body.to_vec();
+                        let ff = framing_fields.to_string();
+                        let world = World::install(false, move |i, _| {
+                            if i < hops {
+                                let mut w = format!("HTTP/1.1 {status} Moved\r\nLocation: /next{i}\r\n{ff}\r\n").into_bytes();
+                                w.extend_from_slice(&body);
+                                let mut s = Script::plain(w);
+                                s.end = End::Pause;
+                                s.policy.uniform = uniform;
+                                Ok(s)
+                            } else {
+                                Ok(Script::plain(b"HTTP/1.1 200 OK\r\nContent-Length: 4\r\n\r\ndone".to_vec()))
+                            }
+                        });
+                        let res = guarded(|| attohttpc::get("http://h.test/start").send().and_then(|r| r.bytes()));
+                        let asked: Vec<bool> = (0..world.n_conns().min(hops)).map(|i| world.shared(i).lock().unwrap().asked_beyond_pause).collect();
+                        let replay = json!({"engine": "c19-redirect"});
+                        if asked.iter().any(|a| *a) {
+                            ctx.violation(
+                                format!("C19:{fname}:send-waits-for-redirect-body"),
+                                format!("{hops} redirect(s), status {status}, {fname} framing, transport reads of {uniform:?} bytes: send() asked the redirecting connection for bytes beyond the pause although its whole head had arrived (asked per hop: {asked:?}); result {}", short_res(&res)),
+                                replay,
+                                n,
+                            );
+                        } else if !matches!(&res, Ok(Ok(b)) if b == b"done") {
+                            ctx.violation(
+                                format!("C19:{fname}:redirect-not-followed"),
+                                format!("{hops} redirect(s), status {status}, {fname} framing, transport reads of {uniform:?} bytes: expected the final response, got {}", short_res(&res)),
+                                replay,
+                                n,
+                            );
+                        }
+                    }
+                }
+            }
+        }
+    }
+    n
+}
+
+fn short_res(r: &Result<attohttpc::Result<Vec<u8>>, String>) -> String {
+    format!("{r:?}").chars().take(140).collect()
+}
+
 pub fn replay_e1(v: &serde_json::Value) -> i32 {
+    if v["case"]["engine"] == "c19-redirect" {
+        let ctx = Ctx::new("C19", Tier::Quick);
+        redirect_pause_cells(&ctx);
+        let vs = ctx.drain_violations();
+        for (v, n) in &vs {
+            println!("{}: {} ({n} cases)", v.signature, v.what);
+        }
+        return if vs.is_empty() { 0 } else { 1 };
+    }
     let case: Case = serde_json::from_value(v["case"]["case"].clone()).expect("case");
     let hist: Vec<Op> = serde_json::from_value(v["case"]["history"].clone()).expect("history");
     let a = replay(&case, &hist);
